@@ -254,7 +254,12 @@ class FockOperationType(Enum):
 
         assert isinstance(num_quanta, int)
         assert isinstance(state, jnp.ndarray)
-        state = state / jnp.linalg.norm(state)
+        if state.ndim == 2 and state.shape[0] == state.shape[1] and state.shape[0] > 1:
+            # A density matrix is normalised by its trace (its Frobenius norm is < 1
+            # for a mixed state, which made the estimator stop too early)
+            state = state / jnp.trace(state)
+        else:
+            state = state / jnp.linalg.norm(state)
 
         match self:
             case FockOperationType.Creation:
